@@ -157,7 +157,7 @@ func main() {
 	// 2. random worlds: 1-3 nodes, 0-3 perturbations each, random pool kinds
 	nRand, condRounds := 500, 1
 	if c.Thorough() {
-		nRand, condRounds = 12000, 6
+		nRand, condRounds = 6000, 6
 	}
 	pools := []string{"dyn", "dyn", "dyn0", "wempty", "bal", "static", "never", "staticnever"}
 	for i := 0; i < nRand; i++ {
